@@ -2,7 +2,10 @@ use crate::alloc::{format, Vec};
 use crate::error::MockError;
 use crate::{debug, MockFnInfo};
 
+#[cfg(not(unimock_verif))]
 use core::{fmt::Display, sync::atomic::AtomicUsize};
+#[cfg(unimock_verif)]
+use {crate::verif::AtomicUsize, core::fmt::Display};
 
 pub(crate) struct CallCounter {
     actual_count: AtomicUsize,
@@ -41,6 +44,21 @@ impl CallCounter {
         };
 
         actual_calls
+    }
+}
+
+#[cfg(unimock_verif)]
+impl CallCounter {
+    pub(crate) fn verif_peek(&self) -> (usize, usize, &'static str) {
+        (
+            self.actual_count.peek(),
+            self.expectation.minimum,
+            match self.expectation.exactness {
+                Exactness::Exact => "Exact",
+                Exactness::AtLeast => "AtLeast",
+                Exactness::AtLeastPlusOne => "AtLeastPlusOne",
+            },
+        )
     }
 }
 
